@@ -17,18 +17,32 @@ import (
 	"verif/harness/vf"
 )
 
+// you is the stake unit of the history being generated (params.StakeUint is a
+// package variable: most histories run with a unit of 10^6 LU so that the Coq
+// numerals stay short, some with the real 10^18)
 var you = new(big.Int).Exp(big.NewInt(10), big.NewInt(18), nil)
 
 func youN(n int64) *big.Int { return new(big.Int).Mul(big.NewInt(n), you) }
+func setUnit(s string) {
+	you = bigS(s)
+	if you.Sign() <= 0 {
+		you = new(big.Int).Exp(big.NewInt(10), big.NewInt(18), nil)
+	}
+}
 
 func randParams(r *vf.Rng) Params {
-	p := Params{Freq: uint64(4 + r.Intn(5)), WithdrawDelay: uint64(1 + r.Intn(9)), Retention: uint64(1 + r.Intn(10)),
+	unit := "1000000"
+	if r.Chance(8) {
+		unit = "1000000000000000000"
+	}
+	setUnit(unit)
+	p := Params{Unit: unit, Freq: uint64(4 + r.Intn(5)), WithdrawDelay: uint64(1 + r.Intn(9)), Retention: uint64(1 + r.Intn(10)),
 		MaxRewardsPeriod: uint64(1 + r.Intn(3)), ExpelDS: uint64(3 + r.Intn(20)), ExpelInactive: uint64(2 + r.Intn(10)),
-		FracDS: r.Pick([]uint64{2, 2, 2, 10, 50, 100}), FracInactive: r.Pick([]uint64{0, 1, 1, 1, 10, 100}), InactWait: uint64(3 + r.Intn(10)),
-		MinStakes: [3]uint64{10, 5, 2}, MaxStakes: [3]uint64{uint64(40 + r.Intn(80)), uint64(30 + r.Intn(40)), uint64(10 + r.Intn(30))},
+		FracDS: r.Pick([]uint64{2, 2, 2, 2, 10, 50}), FracInactive: r.Pick([]uint64{0, 1, 1, 1, 1, 10}), InactWait: uint64(3 + r.Intn(8) + 20*r.Intn(3)),
+		MinStakes: [3]uint64{10, 5, 2}, MaxStakes: [3]uint64{uint64(14 + r.Intn(40)), uint64(9 + r.Intn(30)), uint64(5 + r.Intn(20))},
 		MinSelf: [3]uint64{uint64(r.Intn(8)), uint64(r.Intn(6)), 0}, Ratio: [3]uint64{3, 3, 4},
 		MaxDlgVal: 2 + r.Intn(3), MaxDlgDlg: 1 + r.Intn(3), MinDlgTokens: youN(int64(1 + r.Intn(3))).String(),
-		SubsidyThreshold: 9000000000000000000, SubsidyCoeff: 5}
+		SubsidyThreshold: youN(9).Uint64(), SubsidyCoeff: 5}
 	if r.Chance(15) {
 		p.MaxStakes[r.Intn(3)] = 0 // no upper bound
 	}
@@ -36,7 +50,7 @@ func randParams(r *vf.Rng) Params {
 		p.Ratio = [3]uint64{uint64(1 + r.Intn(5)), uint64(1 + r.Intn(5)), uint64(1 + r.Intn(5))}
 	}
 	if r.Chance(10) {
-		p.SubsidyThreshold = r.Pick([]uint64{0, 1000, 15000000000000000000})
+		p.SubsidyThreshold = r.Pick([]uint64{0, 1000, youN(15).Uint64()})
 		p.SubsidyCoeff = uint8(1 + r.Intn(9))
 	}
 	return p
@@ -66,12 +80,12 @@ func newHistory(r *vf.Rng) *History {
 		min := int64(h.Params.MinStakes[role-1])
 		tok := youN(min + int64(r.Intn(12)))
 		if r.Chance(25) {
-			tok.Add(tok, big.NewInt(int64(r.Intn(1000000000)))) // not a whole number of stake units
+			tok.Add(tok, big.NewInt(int64(r.Intn(999999)))) // not a whole number of stake units
 		}
 		gv := GenesisVal{Key: k, Operator: k % na, Coinbase: r.Intn(na), Role: role, Token: tok.String(), Online: k == 0 || r.Chance(80),
 			Accept: uint16(r.Pick([]uint64{1, 1, 1, 0})), Commission: randRate(r), Risk: randRate(r)}
 		if r.Chance(20) {
-			gv.Dist = big.NewInt(int64(1 + r.Intn(5000000))).String()
+			gv.Dist = big.NewInt(int64(1 + r.Intn(400000))).String()
 		}
 		h.Vals = append(h.Vals, gv)
 	}
@@ -111,6 +125,9 @@ func pickAmount(r *vf.Rng, base *big.Int, unitStep bool) *big.Int {
 	if x.Sign() <= 0 && !r.Chance(5) {
 		x = youN(1)
 	}
+	if x.Sign() < 0 { // a negative amount cannot be RLP-encoded by any client
+		x = new(big.Int)
+	}
 	return x
 }
 
@@ -147,7 +164,7 @@ func (w *World) nextBlock(r *vf.Rng, o *Obs, num uint64) BlockIn {
 	switch {
 	case r.Chance(1) && num > 6:
 		b.Proposer = w.h.NVKeys - 1 // possibly not a validator: logging.Crit
-	case len(cands) > 0 && !r.Chance(8):
+	case len(cands) > 0 && !r.Chance(4):
 		b.Proposer = cands[0]
 		if r.Chance(35) {
 			b.Proposer = cands[r.Intn(len(cands))]
@@ -160,9 +177,12 @@ func (w *World) nextBlock(r *vf.Rng, o *Obs, num uint64) BlockIn {
 		ntx = 0
 	}
 	na := len(w.addrs)
-	usedNonce := map[int]int{}
 	for i := 0; i < ntx; i++ {
-		t := TxIn{From: r.Intn(na), Gas: 200000, Price: r.Pick([]uint64{0, 1, 1, 2, 7, 1000, 1000000000, 50000000000000})}
+		prices := []uint64{0, 1, 1, 1, 2, 7, 50}
+		if you.BitLen() > 40 {
+			prices = []uint64{0, 1, 2, 7, 1000, 1000000000, 50000000000000}
+		}
+		t := TxIn{From: r.Intn(na), Gas: 200000, Price: r.Pick(prices)}
 		var ov *OVal
 		if len(o.Vals) > 0 && !r.Chance(8) {
 			ov = &o.Vals[r.Intn(len(o.Vals))]
@@ -174,6 +194,12 @@ func (w *World) nextBlock(r *vf.Rng, o *Obs, num uint64) BlockIn {
 					ov = &o.Vals[i]
 				}
 			}
+		}
+		anchor := w.ids[w.vmain[0]]
+		if ov != nil && ov.Addr == anchor && len(o.Vals) > 1 && !r.Chance(25) {
+			// leave the anchor validator alone most of the time so that chains get long
+			ov = &o.Vals[r.Intn(len(o.Vals))]
+			t.Val = w.keyOfVal(ov.Addr)
 		}
 		asOperator := func() {
 			if ov != nil && !r.Chance(6) {
@@ -202,6 +228,18 @@ func (w *World) nextBlock(r *vf.Rng, o *Obs, num uint64) BlockIn {
 			t.Kind = "create"
 			t.Gas = 2000000
 			t.Val = r.Intn(w.h.NVKeys)
+			for tries := 0; tries < 4 && r.Chance(80); tries++ { // prefer a key that is not a validator yet
+				used := false
+				for i := range o.Vals {
+					if w.keyOfVal(o.Vals[i].Addr) == t.Val {
+						used = true
+					}
+				}
+				if !used {
+					break
+				}
+				t.Val = r.Intn(w.h.NVKeys)
+			}
 			t.Operator, t.Coinbase, t.Role = t.From, r.Intn(na), uint8(1+r.Intn(3))
 			if r.Chance(5) {
 				t.Operator = r.Intn(na)
@@ -285,6 +323,13 @@ func (w *World) nextBlock(r *vf.Rng, o *Obs, num uint64) BlockIn {
 			}
 		case k < 92:
 			t.Kind = "dsub"
+			for i := range o.Vals { // prefer a validator that has delegations
+				if len(o.Vals[i].Dlgs) > 0 && r.Chance(70) {
+					ov = &o.Vals[i]
+					t.Val = w.keyOfVal(ov.Addr)
+					break
+				}
+			}
 			t.Value = youN(int64(1 + r.Intn(6))).String()
 			if ov != nil && len(ov.Dlgs) > 0 {
 				d := ov.Dlgs[r.Intn(len(ov.Dlgs))]
@@ -320,15 +365,64 @@ func (w *World) nextBlock(r *vf.Rng, o *Obs, num uint64) BlockIn {
 		case 3:
 			t.Gas = 100000 // below the intrinsic gas of a staking message with payload
 		}
-		// several transactions of one sender in a block need consecutive nonces
-		t.NonceDelta += usedNonce[t.From]
-		b.Txs = append(b.Txs, t)
-		usedNonce[t.From]++ // optimistic: assumes the previous one is included (a gap is a wanted reject class too)
+		b.Txs = append(b.Txs, t) // the nonce is the sender's nonce at execution time plus NonceDelta
 	}
-	if r.Chance(12) && len(all) > 0 {
+	// scripted boundary scenarios on a validator that has delegations or is close to its maximum
+	if r.Chance(18) && len(o.Vals) > 0 {
+		ov := &o.Vals[r.Intn(len(o.Vals))]
+		for i := range o.Vals {
+			if len(o.Vals[i].Dlgs) > 0 && r.Chance(60) {
+				ov = &o.Vals[i]
+			}
+		}
+		if ov.Addr == w.ids[w.vmain[0]] && len(o.Vals) > 1 && !r.Chance(20) {
+			ov = &o.Vals[(r.Intn(len(o.Vals)-1)+1)%len(o.Vals)]
+		}
+		vk := w.keyOfVal(ov.Addr)
+		op := w.acctOfID(ov.Operator)
+		max := youN(int64(p.MaxStakes[ov.Role-1]))
+		room := new(big.Int).Sub(max, ov.Token)
+		if op >= 0 && room.Sign() > 0 {
+			switch r.Intn(5) {
+			case 0: // withdraw a little, then deposit / delegate up to the maximum computed from the understated pending total
+				b.Txs = append(b.Txs, TxIn{Kind: "withdraw", From: op, Val: vk, Recipient: op, Value: youN(1).String(), Gas: 200000, Price: 1})
+				b.Txs = append(b.Txs, TxIn{Kind: "deposit", From: op, Val: vk, Value: new(big.Int).Add(room, youN(int64(1+r.Intn(2)))).String(), Gas: 200000, Price: 1})
+			case 1:
+				b.Txs = append(b.Txs, TxIn{Kind: "withdraw", From: op, Val: vk, Recipient: op, Value: youN(1).String(), Gas: 200000, Price: 0})
+				b.Txs = append(b.Txs, TxIn{Kind: "dadd", From: r.Intn(na), Val: vk, Value: new(big.Int).Add(room, youN(int64(r.Intn(3)))).String(), Gas: 200000, Price: 1})
+			case 2: // two unbinds of the same delegation in one period
+				if len(ov.Dlgs) > 0 {
+					d := ov.Dlgs[r.Intn(len(ov.Dlgs))]
+					if a := w.acctOfID(d.Addr); a >= 0 {
+						b.Txs = append(b.Txs, TxIn{Kind: "dsub", From: a, Val: vk, Value: d.Token.String(), Gas: 200000, Price: 1})
+						b.Txs = append(b.Txs, TxIn{Kind: "dsub", From: a, Val: vk, Value: youN(1).String(), Gas: 200000, Price: 1})
+					}
+				}
+			case 4: // ask to go online (or offline) and let the delegations leave in the same period
+				b.Txs = append(b.Txs, TxIn{Kind: "status", From: op, Val: vk, Status: uint8(1 - ov.Status), Gas: 200000, Price: 1})
+				for _, d := range ov.Dlgs {
+					if a := w.acctOfID(d.Addr); a >= 0 {
+						b.Txs = append(b.Txs, TxIn{Kind: "dsub", From: a, Val: vk, Value: d.Token.String(), Gas: 200000, Price: 1})
+					}
+				}
+			case 3: // stop accepting while delegations are pending
+				b.Txs = append(b.Txs, TxIn{Kind: "update", From: op, Val: vk, Operator: -1, Coinbase: -1, Accept: 0, Commission: 65535, Risk: 65535})
+				b.Txs = append(b.Txs, TxIn{Kind: "dadd", From: r.Intn(na), Val: vk, Value: bigS(p.MinDlgTokens).String(), Gas: 200000, Price: 1})
+			}
+		}
+	}
+	if r.Chance(5) && len(all) > 0 {
 		ne := 1 + r.Intn(2)
 		for i := 0; i < ne; i++ {
 			e := EvIn{Signer: all[r.Intn(len(all))], Round: num - 1}
+			if len(o.Recs) > 0 && r.Chance(60) { // a validator that has pending transactions (activation then meets an expelled validator)
+				if k := w.keyOfVal(o.Recs[r.Intn(len(o.Recs))].V); k >= 0 {
+					e.Signer = k
+				}
+			}
+			if e.Signer == 0 && !r.Chance(15) {
+				e.Signer = all[len(all)-1]
+			}
 			switch r.Intn(6) {
 			case 0:
 				e.Round = num + uint64(r.Intn(3)) // future: stays pending
@@ -348,6 +442,8 @@ func (w *World) nextBlock(r *vf.Rng, o *Obs, num uint64) BlockIn {
 // ---- oracle -----------------------------------------------------------------------
 
 const (
+	whatDropped = "a staking period ended with no online stake: distributeRewards returned 'empty stake', the pending transactions never took effect and their detained deposits vanish with the staking trie"
+	whatNegRec  = "a delegation-sub after a validator withdraw makes the pending total of the validator negative: the record cannot be RLP-encoded, updateStakingTrie aborts inside a map iteration and pending records are lost nondeterministically"
 	whatRefund = "gas refund credited to the sender is also counted in the block's gas rewards (supply grows by refund*price)"
 	whatDust   = "a validator deleted at the end of a block takes its undistributed rewards residue with it (supply shrinks by the residue)"
 )
@@ -392,7 +488,11 @@ func (w *World) oracleStep(prev, cur *BlockOut, prevSupply *big.Int, res *vf.Res
 				}
 			}
 		}
-		if gone && rest.Sign() < 0 && rest.CmpAbs(big.NewInt(1000000)) < 0 {
+		pendingSum := new(big.Int).Sub(o.Supply, w.supplyWithoutRecords(o))
+		periodEnd := (cur.Number+1)%w.h.Params.Freq == 0
+		if periodEnd && o.Kinds[0].OnStake.Sign() == 0 && pendingSum.Sign() > 0 && new(big.Int).Neg(rest).Cmp(pendingSum) == 0 {
+			hits = append(hits, Hit{What: whatDropped, Block: cur.Number, Delta: rest.String()})
+		} else if gone && rest.Sign() < 0 && rest.CmpAbs(big.NewInt(1000000)) < 0 {
 			hits = append(hits, Hit{What: whatDust, Block: cur.Number, Delta: rest.String()})
 		} else {
 			hits = append(hits, Hit{What: fmt.Sprintf("supply changed at a block boundary (minted/burnt outside the listed classes)"), Block: cur.Number, Delta: rest.String()})
@@ -484,6 +584,11 @@ func runHistory(h *History, r *vf.Rng, more int, res *vf.Result) *Run {
 		}
 		if out.Crashed != "" {
 			h.Blocks = h.Blocks[:i+1]
+			if strings.HasPrefix(out.Crashed, "dberr: rlp: cannot encode negative") {
+				run.Hits = append(run.Hits, Hit{What: whatNegRec, Block: out.Number})
+			} else if strings.HasPrefix(out.Crashed, "dberr") {
+				run.Hits = append(run.Hits, Hit{What: "state database error: " + out.Crashed, Block: out.Number})
+			}
 			break
 		}
 		hits, s := w.oracleStep(prev, out, supply, res)
@@ -502,6 +607,8 @@ func classify(w *World, b *BlockIn, out *BlockOut, prev *BlockOut, res *vf.Resul
 		c := out.Crashed
 		if i := strings.Index(c, ":"); i > 0 && strings.HasPrefix(c, "CRIT") {
 			c = "crit"
+		} else if strings.HasPrefix(c, "dberr") {
+			c = "dberr"
 		} else if strings.Contains(c, "division by zero") {
 			c = "div0"
 		} else if strings.Contains(c, "nil pointer") {
@@ -509,10 +616,19 @@ func classify(w *World, b *BlockIn, out *BlockOut, prev *BlockOut, res *vf.Resul
 		} else {
 			c = "other"
 		}
+		if i := strings.Index(out.Crashed, " @"); i > 0 {
+			c += "_in_" + strings.Trim(out.Crashed[i+2:], "*(). ")
+		}
 		res.Count("block_crash_" + c)
 		return
 	}
 	res.Count("block")
+	for _, t := range out.Topics {
+		switch t {
+		case "deposit_failed", "delegation_add_failed", "delegation_sub_failed", "change_status_failed", "withdraw_effect", "delegation_sub_effect", "slashing", "recover_from_expired_expelling":
+			res.Count("endblock_" + t)
+		}
+	}
 	if (out.Number+1)%w.h.Params.Freq == 0 {
 		res.Count("block_period_end")
 	}
@@ -648,7 +764,7 @@ func gen(seed uint64, n int, outDir, corpusDir string) {
 	}
 	for len(cases) < n {
 		h := newHistory(r)
-		periods := 2 + r.Heavy(14)
+		periods := 3 + r.Heavy(20)
 		if r.Chance(15) {
 			periods = 8 + r.Intn(6)
 		}
@@ -703,7 +819,7 @@ func replay(file string) {
 			if os.Getenv("C07_TRACE") != "" {
 				vb, _ := json.Marshal(o.Obs)
 				tb, _ := json.Marshal(o.Txs)
-				fmt.Printf("   txs %s\n   obs %s\n", tb, vb)
+				fmt.Printf("   txs %s\n   obs %s\n   topics %v\n", tb, vb, o.Topics)
 			}
 		}
 	}
